@@ -494,31 +494,25 @@ theorem frames_innermost_first (sf : SymFile) (base msize instr : Nat) (fr' : Fr
 
 /-! ## 5. files whose records do not overlap: the result equals an independent linear scan -/
 
-/-- the frame without the parameter size (which the property text does not speak about; the
-    `symb` engine's linear-scan oracle compares it too, on STACK WIN records that do not overlap) -/
+/-- the frame without parameter sizes -/
 def Frame.noPsize (fr : Frame) : Frame := { fr with fn := fr.fn.map fun (n, b, _) => (n, b, 0) }
 
-/-- **C11.7 `eq_linear_scan`** — "For files whose records do not overlap, the result equals an
-    independent linear-scan lookup over the file's records." `scanFill`
-    (MdProofs/Lemmas/SymbolizeScan.lean) looks the instruction up with `find?`/`foldl`/`any` over
-    the records in file order — no range table, no sorting, no binary search: first FUNC record
-    containing the address, first depth-0, depth-1, … INLINE range containing it, first line
-    record containing it, else the greatest PUBLIC at or below the address unless a valid FUNC
-    record starts between it and the address. For every file satisfying `NonOverlapping` (valid
-    FUNC ranges, line ranges within a FUNC, same-depth INLINE ranges within a FUNC: pairwise
-    disjoint), every base and every instruction, `fill_symbol`'s function name and base, source
-    file/line/base and inline frames are exactly those of the scan. -/
-theorem eq_linear_scan {r : Recs} {sf : SymFile} (hb : build r = .ok sf) (hno : NonOverlapping r)
-    {base instr : Nat} {fr : Frame} (h : fillSymbol sf base instr = .ok fr) :
-    fr.noPsize = (scanFill r base instr).noPsize := by
+/-- core of `eq_linear_scan`: for files without overlapping FUNC / line / same-depth INLINE
+    records `fill_symbol`'s answer IS the linear scan — with the FUNC's parameter size still taken
+    from the model's STACK WIN tables (`paramSize`); `eq_linear_scan` replaces that by the scan of
+    the STACK WIN records, `eq_linear_scan_any_win` drops it. -/
+theorem eq_linear_scan_core {r : Recs} {sf : SymFile} (hb : build r = .ok sf)
+    (hno : NonOverlapping r) {base instr : Nat} {fr : Frame}
+    (h : fillSymbol sf base instr = .ok fr) :
+    fr = scanFillWith (fun a f => paramSize sf a (finOf f)) r base instr := by
   have B := build_built hb
   by_cases hlt : instr < base
   · rw [fillSymbol_below hlt] at h; cases h
-    unfold scanFill; rw [if_pos hlt]
+    unfold scanFillWith; rw [if_pos hlt]
   · have hge : base ≤ instr := by omega
     have hfa : funcAt sf.funcs sf.ftab (instr - base) = (scanFunc r (instr - base)).map finOf := by
       rw [B.ftab, B.funcs]; exact funcAt_scan hno _
-    unfold scanFill
+    unfold scanFillWith
     rw [if_neg hlt]
     simp only
     cases hs : scanFunc r (instr - base) with
@@ -542,10 +536,10 @@ theorem eq_linear_scan {r : Recs} {sf : SymFile} (hb : build r = .ok sf) (hno : 
         subst hfr
         rcases setSource_ok hss with ⟨hnone, rfl⟩ | ⟨file, hfile, _, rfl⟩
         · rw [B.files] at hnone
-          simp [Frame.noPsize, scanSrc, hnone, hinl]
+          simp [scanSrc, hnone, hinl]
           exact ⟨rfl, rfl⟩
         · rw [B.files] at hfile
-          simp [Frame.noPsize, scanSrc, hfile, hinl]
+          simp [scanSrc, hfile, hinl]
           exact ⟨rfl, rfl⟩
       | line l h0 hline hss =>
         rw [inlineeAt_scan hi] at h0
@@ -557,10 +551,10 @@ theorem eq_linear_scan {r : Recs} {sf : SymFile} (hb : build r = .ok sf) (hno : 
         simp only
         rcases setSource_ok hss with ⟨hnone, rfl⟩ | ⟨file, hfile, _, rfl⟩
         · rw [B.files] at hnone
-          simp [Frame.noPsize, scanSrc, hnone]
+          simp [scanSrc, hnone]
           exact ⟨rfl, rfl⟩
         · rw [B.files] at hfile
-          simp [Frame.noPsize, scanSrc, hfile]
+          simp [scanSrc, hfile]
           exact ⟨rfl, rfl⟩
       | bare h0 hline hfr =>
         rw [inlineeAt_scan hi] at h0
@@ -570,8 +564,7 @@ theorem eq_linear_scan {r : Recs} {sf : SymFile} (hb : build r = .ok sf) (hno : 
         rw [lineAt_scan hl] at hline
         rw [hline]
         subst hfr
-        simp [Frame.noPsize]
-        exact ⟨rfl, rfl⟩
+        rfl
     | none =>
       rw [hs] at hfa
       simp only [Option.map_none] at hfa
@@ -629,6 +622,51 @@ theorem eq_linear_scan {r : Recs} {sf : SymFile} (hb : build r = .ok sf) (hno : 
             rw [hcut]
             simp
 
+
+theorem scanFillWith_noPsize (p1 p2 : Nat → Func → Nat) (r : Recs) (base instr : Nat) :
+    (scanFillWith p1 r base instr).noPsize = (scanFillWith p2 r base instr).noPsize := by
+  unfold scanFillWith
+  split
+  · rfl
+  · simp only
+    split
+    · split
+      · rfl
+      · split <;> rfl
+    · rfl
+
+/-- **C11.7 `eq_linear_scan`** — "For files whose records do not overlap, the result equals an
+    independent linear-scan lookup over the file's records." `scanFill`
+    (MdProofs/Lemmas/SymbolizeScan.lean) looks the instruction up with `find?`/`foldl`/`any` over
+    the records in file order — no range table, no sorting, no binary search: first FUNC record
+    containing the address (parameter size: first covering STACK WIN frame-data record, else first
+    covering fpo record, else the FUNC's), first depth-0, depth-1, … INLINE range containing it,
+    first line record containing it; else the greatest PUBLIC at or below the address unless a
+    valid FUNC record starts between it and the address. For every file satisfying
+    `NonOverlapping` (valid FUNC ranges; line ranges within a FUNC; same-depth INLINE ranges
+    within a FUNC: pairwise disjoint) and `WinNonOverlapping` (valid STACK WIN ranges of each type
+    pairwise disjoint, fields within their `u32` types), every base and every instruction,
+    `fill_symbol`'s whole answer — function name, base and parameter size, source file/line/base,
+    inline frames — is exactly that of the scan. -/
+theorem eq_linear_scan {r : Recs} {sf : SymFile} (hb : build r = .ok sf) (hno : NonOverlapping r)
+    (hw4 : WinNonOverlapping r.win4) (hw0 : WinNonOverlapping r.win0)
+    {base instr : Nat} {fr : Frame} (h : fillSymbol sf base instr = .ok fr) :
+    fr = scanFill r base instr := by
+  rw [eq_linear_scan_core hb hno h]
+  unfold scanFill
+  congr 1
+  funext a f
+  exact paramSize_scan (build_built hb) hw4 hw0 a f
+
+/-- the same with ANY STACK WIN records (overlapping ones are repaired/dropped by the table
+    builder, C08): everything but the parameter size equals the linear scan -/
+theorem eq_linear_scan_any_win {r : Recs} {sf : SymFile} (hb : build r = .ok sf)
+    (hno : NonOverlapping r) {base instr : Nat} {fr : Frame}
+    (h : fillSymbol sf base instr = .ok fr) :
+    fr.noPsize = (scanFill r base instr).noPsize := by
+  rw [eq_linear_scan_core hb hno h]
+  exact scanFillWith_noPsize _ _ _ _ _
+
 /-! ## 6. building the tables never fails (C08), restated for whole files -/
 
 /-- `SymbolParser::finish` cannot panic on a file without STACK WIN records: every
@@ -642,6 +680,16 @@ theorem build_ok (r : Recs) (h4 : r.win4 = []) (h0 : r.win0 = []) : ∃ sf, buil
     simp only [insertWinAll, List.reverse_nil, List.map_nil]
     exact safeP_ok [] (by intro e he; cases he)
   simp only [this]
+  exact ⟨_, rfl⟩
+
+/-- the same for files whose STACK WIN records do not overlap (for arbitrary STACK WIN records:
+    C08's `win_repair_no_panic`) -/
+theorem build_ok_win (r : Recs) (h4 : WinNonOverlapping r.win4) (h0 : WinNonOverlapping r.win0) :
+    ∃ sf, build r = .ok sf := by
+  obtain ⟨t4, e4⟩ := winTable_ok h4
+  obtain ⟨t0, e0⟩ := winTable_ok h0
+  unfold build
+  simp only [finishAll_ok, safeP_ok _ (funcInput_wf _), e4, e0]
   exact ⟨_, rfl⟩
 
 /-! ## non-vacuity: a concrete file satisfying every hypothesis, and the theorems applied to it -/
@@ -682,7 +730,7 @@ example (sf : SymFile) (hb : build nested = .ok sf) :
   obtain ⟨fr, hfr⟩ := fill_no_panic hb 0x7000 0x8000 (by decide)
     (by intro f hf; simp only [nested, List.mem_singleton] at hf; subst hf; decide)
   refine ⟨fr, hfr, ?_⟩
-  rw [eq_linear_scan hb nested_nonoverlapping hfr]
+  rw [eq_linear_scan_any_win hb nested_nonoverlapping hfr]
   decide
 
 /-- PUBLIC fallback on the same file: below the FUNC the PUBLIC at 0x800 is reported; just after
@@ -693,8 +741,27 @@ example (sf : SymFile) (hb : build nested = .ok sf) (fr1 fr2 fr3 : Frame)
     (h3 : fillSymbol sf 0 0x1040 = .ok fr3) :
     fr1.noPsize = { fn := some ([200], 0x800, 0) } ∧ fr2.noPsize = {} ∧
     fr3.noPsize = { fn := some ([201], 0x1038, 0) } := by
-  rw [eq_linear_scan hb nested_nonoverlapping h1, eq_linear_scan hb nested_nonoverlapping h2,
-    eq_linear_scan hb nested_nonoverlapping h3]
+  rw [eq_linear_scan_any_win hb nested_nonoverlapping h1,
+    eq_linear_scan_any_win hb nested_nonoverlapping h2,
+    eq_linear_scan_any_win hb nested_nonoverlapping h3]
+  decide
+
+/-- the same file with a frame-data record over the FUNC and an fpo record elsewhere: the full
+    `eq_linear_scan` applies and the parameter size comes from the frame-data record -/
+def nestedWin : Recs := { nested with win4 := [⟨0x1000, 0x30, 8⟩], win0 := [⟨0x2000, 4, 12⟩] }
+
+theorem nestedWin_win : WinNonOverlapping nestedWin.win4 ∧ WinNonOverlapping nestedWin.win0 := by
+  constructor <;> refine ⟨by simp [nestedWin], ?_⟩ <;>
+    (intro w hw; simp only [nestedWin, List.mem_singleton] at hw; subst hw; decide)
+
+example : ∃ sf, build nestedWin = .ok sf := build_ok_win _ nestedWin_win.1 nestedWin_win.2
+
+example (sf : SymFile) (hb : build nestedWin = .ok sf) (fr : Frame)
+    (h : fillSymbol sf 0 0x1020 = .ok fr) :
+    fr = { fn := some ([100], 0x1000, 8), src := some ([15], 62, 0x1020) } := by
+  have hno : NonOverlapping nestedWin :=
+    ⟨nested_nonoverlapping.funcs, nested_nonoverlapping.lines, nested_nonoverlapping.inls⟩
+  rw [eq_linear_scan hb hno nestedWin_win.1 nestedWin_win.2 h]
   decide
 
 /-- the hypotheses of `public_rule`/`func_covers`/`line_covers`/`inline_chain` are those of the
